@@ -379,6 +379,9 @@ func c14Walk(m *meta.Module) {
 			_ = x.DefaultValue()
 			_ = x.Units()
 			walkType(x.Type(), 0)
+			if t := x.Type(); t != nil && t.Format().Single() == val.FmtIdentityRef {
+				_, _ = node.NewValue(t, "no-such-identity")
+			}
 		}
 		if x, ok := d.(*meta.List); ok {
 			_ = x.KeyMeta()
@@ -420,11 +423,16 @@ func c14Walk(m *meta.Module) {
 	_ = m.Revision()
 	_ = m.Contact()
 	_ = m.Organization()
+	var ids []*meta.Identity
 	for _, i := range m.Identities() {
 		_ = i.Ident()
 		_ = i.Base()
 		_ = i.DerivedDirect()
+		_ = i.DerivedDirectIds()
+		ids = append(ids, i)
 	}
+	// the lookup every identityref value goes through, for a name that is not there
+	_ = meta.FindIdentity(ids, "no-such-identity")
 	for _, f := range m.Features() {
 		_ = f.Ident()
 	}
@@ -580,6 +588,18 @@ func c14Cycles() []c14Scenario {
 		}
 		sb.WriteString("leaf x { type t0; } }")
 		out = append(out, c14Scenario{"typedef-graph-" + name, sb.String(), nil})
+		// identities
+		sb.Reset()
+		sb.WriteString(hdr)
+		for i := 0; i < 3; i++ {
+			if f[i] == 3 {
+				fmt.Fprintf(&sb, "identity i%d; ", i)
+			} else {
+				fmt.Fprintf(&sb, "identity i%d { base i%d; } ", i, f[i])
+			}
+		}
+		sb.WriteString("leaf x { type identityref { base i0; } } }")
+		out = append(out, c14Scenario{"identity-graph-" + name, sb.String(), nil})
 		// groupings
 		sb.Reset()
 		sb.WriteString(hdr)
@@ -822,6 +842,19 @@ func c14Cycles() []c14Scenario {
 		{"case-outside-choice", hdr + `container c { case k { leaf x { type string; } } } }`, nil},
 		{"key-outside-list", hdr + `container c { key k; } }`, nil},
 		{"type-outside-leaf", hdr + `container c { type string; } }`, nil},
+		// the half of an rpc / action that is not there, addressed by augment, deviation and leafref
+		{"augment-missing-rpc-output", hdr + `rpc r { input { leaf i { type string; } } } augment "/r/output" { leaf x { type string; } } }`, nil},
+		{"augment-missing-rpc-input", hdr + `rpc r { output { leaf o { type string; } } } augment "/r/input" { leaf x { type string; } } }`, nil},
+		{"augment-rpc-without-input-and-output", hdr + `rpc r { } augment "/r/input" { leaf x { type string; } } augment "/r/output" { leaf y { type string; } } }`, nil},
+		{"deviation-missing-rpc-output", hdr + `rpc r { input { leaf i { type string; } } } deviation "/r/output" { deviate not-supported; } }`, nil},
+		{"deviation-below-missing-rpc-output", hdr + `rpc r { input { leaf i { type string; } } } deviation "/r/output/o" { deviate not-supported; } }`, nil},
+		{"deviation-missing-rpc-input", hdr + `rpc r { output { leaf o { type string; } } } deviation "/r/input" { deviate not-supported; } }`, nil},
+		{"leafref-into-missing-rpc-output", hdr + `rpc r { input { leaf i { type string; } } } leaf l { type leafref { path "/r/output/o"; } } }`, nil},
+		{"leafref-into-missing-rpc-input", hdr + `rpc r { output { leaf o { type string; } } } leaf l { type leafref { path "/r/input/i"; } } }`, nil},
+		{"leafref-to-rpc-output-node-itself", hdr + `rpc r { input { leaf i { type string; } } } leaf l { type leafref { path "/r/output"; } } }`, nil},
+		{"augment-missing-action-output", hdr + `container c { action a { input { leaf i { type string; } } } } augment "/c/a/output" { leaf x { type string; } } }`, nil},
+		{"deviation-missing-action-input", hdr + `container c { action a { output { leaf o { type string; } } } } deviation "/c/a/input/i" { deviate not-supported; } }`, nil},
+		{"when-must-on-missing-halves", hdr + `rpc r { input { leaf i { type string; must "../../output/o"; } } } }`, nil},
 		{"two-modules-in-one-text", `module a { namespace "urn:a"; prefix a; revision 0; } module b { namespace "urn:b"; prefix b; revision 0; }`, nil},
 	} {
 		out = append(out, extra)
